@@ -92,9 +92,15 @@ def fieldsOkW : List Str → List (Str × Str) → Bool
     isName f.1 && !isPersonField f.1 && !seen.contains (lower f.1) && valueOkW f.2 &&
     fieldsOkW (lower f.1 :: seen) fs
 
+/-- ASCII only -/
+def isAsciiStr (s : Str) : Bool := s.all fun c => decide (c.toNat < 128)
+
+/-- the BibTeX domain has ASCII identifiers only: entry types, field names and roles are NAMEs of
+the `.bib` grammar (ASCII by its character table), keys are asked to be ASCII here (the `.bib`
+reader model of C01 compares keys through the ASCII lower-casing) -/
 def entryOkW (keys : List Str) (e : Entry) : Bool :=
   isName e.origType && !reserved.contains (lower e.origType) && e.type == lower e.origType &&
-  keyOk false e.key && !keys.contains (lower e.key) &&
+  keyOk false e.key && isAsciiStr e.key && !keys.contains (lower e.key) &&
   rolesOkW [] e.persons && fieldsOkW [] e.fields
 
 def entriesOkW : List Str → List Entry → Bool
@@ -105,28 +111,32 @@ def entriesOkW : List Str → List Entry → Bool
 def WFDb (d : BibData) : Bool :=
   entriesOkW [] d.entries && (d.preambleText = [] || valueOkW d.preambleText)
 
-/-! ### databases: the YAML / BibTeXML domain of the conversion logic -/
+/-! ### databases: the YAML / BibTeXML domain of the conversion logic
+
+Identifiers may be any strings here (non-ASCII included); they are compared the way the code
+compares them, through `str.lower()` = `lowerU` — on `lowerDomain` (no U+0130, whose lower-case form
+is two characters, no U+03A3, whose lower-case form depends on its context). -/
 
 def rolesOkT : List Str → List (Str × List Person) → Bool
   | _, [] => true
   | seen, r :: rs =>
-    isPersonField r.1 && !seen.contains (lower r.1) && r.2 ≠ [] && r.2.all WFPerson &&
-    rolesOkT (lower r.1 :: seen) rs
+    isPersonField r.1 && !seen.contains (lowerU r.1) && r.2 ≠ [] && r.2.all WFPerson &&
+    rolesOkT (lowerU r.1 :: seen) rs
 
 /-- `yaml`: the key `type` (any case) is taken by the entry type -/
 def fieldsOkT (yaml : Bool) : List Str → List (Str × Str) → Bool
   | _, [] => true
   | seen, f :: fs =>
-    !isPersonField f.1 && !(yaml && lower f.1 == "type".toList) && !seen.contains (lower f.1) &&
-    fieldsOkT yaml (lower f.1 :: seen) fs
+    !isPersonField f.1 && !(yaml && lower f.1 == "type".toList) && lowerDomain f.1 &&
+    !seen.contains (lowerU f.1) && fieldsOkT yaml (lowerU f.1 :: seen) fs
 
 def entryOkT (yaml : Bool) (keys : List Str) (e : Entry) : Bool :=
-  e.type == lower e.origType && !keys.contains (lower e.key) &&
-  rolesOkT [] e.persons && fieldsOkT yaml [] e.fields
+  e.type == lowerU e.origType && lowerDomain e.origType && lowerDomain e.key &&
+  !keys.contains (lowerU e.key) && rolesOkT [] e.persons && fieldsOkT yaml [] e.fields
 
 def entriesOkT (yaml : Bool) : List Str → List Entry → Bool
   | _, [] => true
-  | keys, e :: es => entryOkT yaml keys e && entriesOkT yaml (lower e.key :: keys) es
+  | keys, e :: es => entryOkT yaml keys e && entriesOkT yaml (lowerU e.key :: keys) es
 
 def WFDbTree (yaml : Bool) (d : BibData) : Bool := entriesOkT yaml [] d.entries
 
@@ -144,11 +154,12 @@ def canonFor (f : Fmt) (d : BibData) : BibData :=
   | .bibtexml => { entries := d.entries, preamble := [] }
   | _ => canonDb d
 
-/-- identifiers lower-cased, nothing else touched: keys, entry types, field names, role names -/
+/-- identifiers lower-cased (`str.lower()` = `lowerU`), nothing else touched: keys, entry types,
+field names, role names -/
 def lowerEntrySpec (e : Entry) : Entry :=
-  { key := lower e.key, type := lower e.type, origType := e.type,
-    fields := e.fields.map fun f => (lower f.1, f.2),
-    persons := e.persons.map fun r => (lower r.1, r.2) }
+  { key := lowerU e.key, type := lowerU e.type, origType := e.type,
+    fields := e.fields.map fun f => (lowerU f.1, f.2),
+    persons := e.persons.map fun r => (lowerU r.1, r.2) }
 
 def lowerSpec (d : BibData) : BibData :=
   { entries := d.entries.map lowerEntrySpec, preamble := d.preamble }
@@ -167,5 +178,86 @@ BibTeXML is on the way -/
 def chainDb (fs : List Fmt) (d : BibData) : BibData :=
   { entries := d.entries,
     preamble := if fs = [] then d.preamble else if fs.contains .bibtexml then [] else canonPreamble d }
+
+/-! ### the stated quantifier
+
+The property quantifies over every database whose values are brace-balanced TeX strings
+(white-space-normalised for BibTeX) and whose persons are expressible in BibTeX name syntax.
+`WFDbQ f` is that domain for the format `f`, spelled out: it is the claimed domain `inDomain f`
+WITHOUT the four restrictions that the code does not honour and that are recorded as findings —
+
+* a person role other than author / editor (`C02-role-not-author-editor`),
+* a role with an empty person list (`C02-empty-role`),
+* YAML: a field called `type` (`C02-yaml-type-field`),
+* BibTeX: one of `# % & _ ~` in a value, a name or the preamble (`C02-five-characters`)
+
+— so that the check can switch the round-trip oracle on for such databases (`inDomain_Q`,
+`Q_minus_findings` in `Props/C02.lean`).  Field names and role names are distinct jointly (all three
+formats write both into one namespace). -/
+
+/-- balanced with nesting ≤ 100, white-space-normalised (the five characters allowed) -/
+def valueOkQ (v : Str) : Bool := litScan false 0 v == some 0 && normalizeWs v == v
+
+def personOkQ (bib : Bool) (p : Person) : Bool := WFPerson p && (!bib || andFree (formatName p))
+
+/-- `key.lower() == 'type'` -/
+def isTypeKey (n : Str) : Bool := lower n == "type".toList
+
+def rolesOkQ (bib : Bool) : List Str → List (Str × List Person) → Bool
+  | _, [] => true
+  | seen, r :: rs =>
+    (!bib || (isName r.1 && (r.2 = [] || valueOkQ (formatNames r.2)))) &&
+    lowerDomain r.1 && !isTypeKey r.1 && !seen.contains (lowerU r.1) && r.2.all (personOkQ bib) &&
+    rolesOkQ bib (lowerU r.1 :: seen) rs
+
+def fieldsOkQ (bib : Bool) : List Str → List (Str × Str) → Bool
+  | _, [] => true
+  | seen, f :: fs =>
+    (!bib || (isName f.1 && valueOkQ f.2)) && !isPersonField f.1 && lowerDomain f.1 &&
+    !seen.contains (lowerU f.1) && fieldsOkQ bib (lowerU f.1 :: seen) fs
+
+def entryOkQ (bib : Bool) (keys : List Str) (e : Entry) : Bool :=
+  e.type == lowerU e.origType && lowerDomain e.origType && lowerDomain e.key &&
+  (!bib || (isName e.origType && !reserved.contains (lower e.origType) && keyOk false e.key &&
+            isAsciiStr e.key)) &&
+  !keys.contains (lowerU e.key) && rolesOkQ bib [] e.persons &&
+  fieldsOkQ bib (e.persons.map fun r => lowerU r.1) e.fields
+
+def entriesOkQ (bib : Bool) : List Str → List Entry → Bool
+  | _, [] => true
+  | keys, e :: es => entryOkQ bib keys e && entriesOkQ bib (lowerU e.key :: keys) es
+
+/-- the domain of the stated quantifier for the format `f` -/
+def WFDbQ (f : Fmt) (d : BibData) : Bool :=
+  match f with
+  | .bibtex => entriesOkQ true [] d.entries && (d.preambleText = [] || valueOkQ d.preambleText)
+  | _ => entriesOkQ false [] d.entries
+
+/-! the four recorded restrictions, as predicates on a database -/
+
+/-- some role is not a person field of the readers (`Person.valid_roles`) -/
+def hasOtherRole (d : BibData) : Bool := d.entries.any fun e => e.persons.any fun r => !isPersonField r.1
+/-- some role has no person -/
+def hasEmptyRole (d : BibData) : Bool := d.entries.any fun e => e.persons.any fun r => r.2 = []
+/-- some field is called `type` (any letter case) -/
+def hasTypeField (d : BibData) : Bool := d.entries.any fun e => e.fields.any fun f => isTypeKey f.1
+/-- one of `# % & _ ~` occurs in a field value, in a written name list or in the preamble -/
+def hasFive (d : BibData) : Bool :=
+  (d.entries.any fun e => (e.fields.any fun f => !Safe f.2) || e.persons.any fun r => !Safe (formatNames r.2)) ||
+  !Safe d.preambleText
+
+/-! ### `eval(repr(db))` -/
+
+/-- the domain of `eval(repr(entry))`: names distinct up to case, persons whose `str()` is read back
+(any role names, empty roles allowed) -/
+def reprOk (e : Entry) : Bool :=
+  e.type == lowerU e.origType &&
+  (e.fields.map fun f => lowerU f.1).Pairwise (· ≠ ·) &&
+  (e.persons.map fun r => lowerU r.1).Pairwise (· ≠ ·) &&
+  e.persons.all fun r => r.2.all WFPerson
+
+/-- the domain of `eval(repr(db))`: keys distinct up to case, every entry `reprOk` -/
+def reprOkDb (d : BibData) : Bool :=
+  (d.entries.map fun e => lowerU e.key).Pairwise (· ≠ ·) && d.entries.all reprOk
 
 end Pybtex.BibWrite
